@@ -54,6 +54,9 @@ type params struct {
 	// Managed: the unification breaker is driven the way its user drives it, through the
 	// unifier's EndpointManager (RecordFailure / RecordSuccess / GetCircuitBreaker(url).Allow)
 	Managed bool `json:"managed,omitempty"`
+	// Slash: the health-check URL the breaker is keyed by ends in "/" (the default health path of
+	// several endpoint types is "/")
+	Slash bool `json:"slash,omitempty"`
 }
 
 // health
@@ -70,8 +73,11 @@ func (b *healthB) Advance(d time.Duration) { b.cb.VerifShift(b.url, d) }
 var healthCB = health.NewCircuitBreaker()
 var healthSeq int64
 
-func newHealth() (*healthB, func()) {
+func newHealth(slash bool) (*healthB, func()) {
 	u := fmt.Sprintf("http://h%d.invalid/health", atomic.AddInt64(&healthSeq, 1))
+	if slash {
+		u = fmt.Sprintf("http://h%d.invalid:11434/", atomic.AddInt64(&healthSeq, 1))
+	}
 	return &healthB{cb: healthCB, url: u}, func() { healthCB.CleanupEndpoint(u) }
 }
 
@@ -157,7 +163,7 @@ func (b *managedB) Advance(d time.Duration) { b.m.GetCircuitBreaker(b.url).Verif
 func newBreaker(p params) (breaker, func(), error) {
 	switch p.Kind {
 	case "health":
-		b, done := newHealth()
+		b, done := newHealth(p.Slash)
 		return b, done, nil
 	case "engine":
 		b, err := newEngine()
@@ -528,7 +534,9 @@ func unifierConfigs() []params {
 }
 
 func exhaustive(t *testing.T, maxLen int) {
-	ps := append([]params{healthParams(), engineParams()}, unifierConfigs()...)
+	hs := healthParams()
+	hs.Slash = true
+	ps := append([]params{healthParams(), hs, engineParams()}, unifierConfigs()...)
 	var n int64
 	buf := make([]byte, maxLen)
 	var walk func(p params, depth, l int)
@@ -563,6 +571,7 @@ func genCase(t *rapid.T) Case {
 	switch rapid.IntRange(0, 2).Draw(t, "kind") {
 	case 0:
 		p = healthParams()
+		p.Slash = rapid.Bool().Draw(t, "slash")
 	case 1:
 		p = engineParams()
 	default:
